@@ -311,9 +311,17 @@ func FarPointer(r *rand.Rand) []byte {
 func ManyPointers(r *rand.Rand) []byte {
 	var out []byte
 	var starts []int
+	deep := r.IntN(3) == 0 // one parent of many short labels that most of the other names are nothing but a pointer to
 	for k := 1 + r.IntN(3); k > 0; k-- {
-		for i := 1 + r.IntN(3); i > 0; i-- {
+		n := 1 + r.IntN(3)
+		if deep {
+			n = 4 + r.IntN(12)
+		}
+		for i := n; i > 0; i-- {
 			l := 1 + r.IntN(8)
+			if deep {
+				l = 1 + r.IntN(2)
+			}
 			starts = append(starts, len(out))
 			out = append(out, byte(l))
 			for j := 0; j < l; j++ {
@@ -323,7 +331,7 @@ func ManyPointers(r *rand.Rand) []byte {
 		out = append(out, 0)
 	}
 	for k := 1 + r.IntN(40); k > 0; k-- {
-		if r.IntN(6) != 0 { // a label, then the pointer
+		if r.IntN(6) != 0 && !(deep && r.IntN(4) != 0) { // a label, then the pointer
 			l := 1 + r.IntN(6)
 			out = append(out, byte(l))
 			for j := 0; j < l; j++ {
